@@ -320,8 +320,16 @@ func RunIn(ctx context.Context, rt wazero.Runtime, m *wasmgen.Module, script []C
 	if m.FuelGlob != "" {
 		fuel, _ = mod.ExportedGlobal(m.FuelGlob).(api.MutableGlobal)
 	}
+	// One api.Function handle per export is kept for the whole script (the common embedding
+	// pattern): state that a call engine wrongly carries from one call to the next is only
+	// visible this way.
+	handles := map[string]api.Function{}
 	for _, c := range script {
-		f := mod.ExportedFunction(c.Fn)
+		f := handles[c.Fn]
+		if f == nil {
+			f = mod.ExportedFunction(c.Fn)
+			handles[c.Fn] = f
+		}
 		if f == nil {
 			tr.Steps = append(tr.Steps, Step{Kind: "no-such-export"})
 			continue
@@ -620,6 +628,7 @@ type Inst struct {
 	Mod  api.Module
 	Tr   Trace
 	fuel api.MutableGlobal
+	fns  map[string]api.Function // one handle per export, reused across calls
 }
 
 // Instantiate creates an anonymous instance with the given module config (nil = default).
@@ -670,7 +679,14 @@ func (in *Inst) Call(ctx context.Context, c Call, fuel int32) {
 	if in.Mod == nil {
 		return
 	}
-	f := in.Mod.ExportedFunction(c.Fn)
+	f := in.fns[c.Fn]
+	if f == nil {
+		f = in.Mod.ExportedFunction(c.Fn)
+		if in.fns == nil {
+			in.fns = map[string]api.Function{}
+		}
+		in.fns[c.Fn] = f
+	}
 	if f == nil {
 		in.Tr.Steps = append(in.Tr.Steps, Step{Kind: "no-such-export"})
 		return
